@@ -295,7 +295,7 @@ def check(tier, seed, t0):
     k = 1 if not th else 10
     past = max(1, c.get("queries_past_threshold", 0))
     guards = [("queries compared with the cold naive evaluation", c.get("comparisons", 0), 1500 * k), ("queries answered from the index (recording wrapper)", c.get("queries_answered_from_index", 0), 500 * k),
-              ("writes between queries", c.get("writes_between_queries", 0), 100 * k), ("overwrites that change indexed values", c.get("overwrites_changing_indexed_values", 0), 60 * k),
+              ("writes between queries", c.get("writes_between_queries", 0), 60 * k), ("overwrites that change indexed values", c.get("overwrites_changing_indexed_values", 0), 30 * k),
               ("index resets", c.get("index_resets", 0), 10)]
     return common.finish(PROP, tier, seed, "exploration", merged, failures, RULE, t0, guards=guards,
                          assumptions=["the naive evaluation of the same code on a fresh store object is the reference (RFC conformance is C11's question)", "queries in aio shards cannot be attributed to a path (no wrapper in the server process); they use thresholds 0/1"])
